@@ -47,6 +47,7 @@ Inductive op :=
 | OJsonRoundTrip                       (* MarshalJSON then UnmarshalJSON into the set *)
 | OCedarRoundTrip                      (* MarshalCedar then NewPolicySetFromBytes: ids renumbered policy0.. in sorted-id order *)
 | OFromDoc (hs : list handle)          (* NewPolicySetFromBytes of a document holding these policies in order *)
+| OLoadJson (bs : list (str * handle))  (* UnmarshalJSON of a document holding these bindings INTO the current set: replaces its contents *)
 | OAuthorize.
 
 Inductive out :=
@@ -75,6 +76,7 @@ Section Run.
     | OJsonRoundTrip => (s, RBindings (sort_by_id s))
     | OCedarRoundTrip => let s' := number_from 0 (map snd (sort_by_id s)) in (s', RBindings (sort_by_id s'))
     | OFromDoc hs => let s' := number_from 0 hs in (s', RBindings (sort_by_id s'))
+    | OLoadJson bs => let s' := fold_left (fun acc kv => ps_set acc (fst kv) (snd kv)) bs [] in (s', RBindings (sort_by_id s'))
     | OAuthorize => (s, authz s)
     end.
 
